@@ -1,2 +1,162 @@
--- stub: replaced by the redis engine driver
-def main : IO Unit := pure ()
+/-
+Line-protocol driver for the Redis engine (C31 RESP parser, C29 gateway commands).
+Reply format: `<model>\t<spec>`; spec patterns: `*` anything, `a|b` alternatives, `pre*` prefix.
+
+  parse <hex>          parseRESP looped over the byte stream (hook child of the real binary)
+  conn <hex>           the same bytes sent to the real server over TCP: does it survive, what did it allocate
+  cmd <hex> <hex> …    one command (RESP array of bulk strings) on the current connection
+-/
+import Driver.Lib
+import NoKVModel.Redis.Resp
+import NoKVModel.Redis.Gateway
+import NoKVModel.Base.Cfg
+
+open NoKV NoKV.Redis Driver
+
+/-- frozen clock of the model (ms); the generators keep every expiry years away from it -/
+def modelNowMs : Nat := 1800000000000
+
+structure DSt where
+  pc : PCfg := PCfg.good
+  gc : GCfg := GCfg.good
+  gw : St := {}
+  sp : St := {}
+
+def setCfg (st : DSt) (kv : String) : Option DSt :=
+  match kv.splitOn "=" with
+  | [k, v] =>
+    match k with
+    | "resp.arrayPrealloc" =>
+      if v == "declared" then some { st with pc := { st.pc with arrPreallocCapped := false } }
+      else match v.splitOn ":" with
+        | ["min", n] => do let n ← natOf? n; pure { st with pc := { st.pc with arrPreallocCapped := true, arrCap := n } }
+        | _ => none
+    | "resp.bulkRead" =>
+      if v == "declared" then some { st with pc := { st.pc with bulkChunked := false } }
+      else match v.splitOn ":" with
+        | ["chunked", n] => do let n ← natOf? n; pure { st with pc := { st.pc with bulkChunked := true, bulkChunk := n } }
+        | _ => none
+    -- structural facts: the model has exactly one behaviour for each
+    | "resp.otherMakes" => if v == "none" then some st else none
+    | "resp.lenParser" => if v == "atoi" then some st else none
+    | "resp.negArrayNil" => if v == "true" then some st else none
+    | "resp.negBulkNil" => if v == "true" then some st else none
+    | "resp.lineTerm" => if v == "crlf" then some st else none
+    | "resp.crlfAfterBulk" => if v == "true" then some st else none
+    | "gw.commands" => if v == "PING,ECHO,GET,SET,DEL,MGET,MSET,INCR,DECR,INCRBY,DECRBY,EXISTS,QUIT" then some st else none
+    | "gw.nameFold" => if v == "upper" then some st else none
+    | "gw.incrEmptyAsZero" => do let b ← boolOfString? v; pure { st with gc := { st.gc with incrEmptyAsZero := b } }
+    | "gw.intParseLax" => do let b ← boolOfString? v; pure { st with gc := { st.gc with intParseLax := b } }
+    | "gw.decrbyMinChecked" => do let b ← boolOfString? v; pure { st with gc := { st.gc with decrbyMinChecked := b } }
+    | "gw.pxatSubSecondOk" => do let b ← boolOfString? v; pure { st with gc := { st.gc with pxatSubSecondOk := b } }
+    | "gw.expireRangeChecked" => do let b ← boolOfString? v; pure { st with gc := { st.gc with expireRangeChecked := b } }
+    | "gw.emptyKeyOk" => do let b ← boolOfString? v; pure { st with gc := { st.gc with emptyKeyOk := b } }
+    | "gw.emptyValueKept" => do let b ← boolOfString? v; pure { st with gc := { st.gc with emptyValueKept := b } }
+    | "gw.pingStrict" => do let b ← boolOfString? v; pure { st with gc := { st.gc with pingStrict := b } }
+    | _ => none
+  | _ => none
+
+def argStr : Arg → String
+  | none => "~"
+  | some b => b.toHex
+
+def frameStr (f : List Arg) : String := "[" ++ ",".intercalate (f.map argStr) ++ "]"
+
+def framesStr (fs : List (List Arg)) : String := ";".intercalate (fs.map frameStr)
+
+def connStr (r : ConnRes) (inputLen : Nat) : String :=
+  let status :=
+    match r.fin with
+    | .panic => "unsafe:panic"
+    | .oom => "unsafe:oom"
+    | .err _ => if memBig r.alloc inputLen then "unsafe:mem" else "safe"
+  -- a panicking / dying process reports no frames
+  let fs := match r.fin with
+    | .err _ => framesStr r.frames
+    | _ => ""
+  s!"{status} end={r.fin.str} f={fs}"
+
+/-- all arguments present (no nil bulk) -/
+def plainFrame (f : List Arg) : Option (List Bytes) := f.mapM id
+
+def isWord (w : Bytes) : Bool := !w.isEmpty && w.all (fun x => decide (33 ≤ x ∧ x ≤ 126))
+
+/-- an inline command: printable ASCII words separated by one space, CR LF -/
+def encodeInline (f : List Bytes) : Option Bytes :=
+  match f with
+  | [] => none
+  | w :: ws =>
+    if (w :: ws).all isWord && w.head? != some 42 then
+      some (ws.foldl (fun acc x => acc ++ [32] ++ x) w ++ crlf)
+    else none
+
+def dropPrefix? : Bytes → Bytes → Option Bytes
+  | [], b => some b
+  | _ :: _, [] => none
+  | x :: xs, y :: ys => if x = y then dropPrefix? xs ys else none
+
+def matchFrames : List (List Bytes) → Bytes → Bool
+  | [], b => b.isEmpty
+  | f :: fs, b =>
+    (match dropPrefix? (encodeArray f) b with
+     | some rest => matchFrames fs rest
+     | none => false) ||
+    (match encodeInline f with
+     | some e => (match dropPrefix? e b with
+        | some rest => matchFrames fs rest
+        | none => false)
+     | none => false)
+
+/-- The input is exactly a sequence of canonically encoded argument arrays / plain inline
+commands: then the property fixes the outcome completely (the encodings are injective). -/
+def wellFormedAs (b : Bytes) (frames : List (List Arg)) : Bool :=
+  match frames.mapM plainFrame with
+  | none => false
+  | some fs => matchFrames fs b
+
+def bigConn (alloc inputLen : Nat) : Bool := decide (64 * inputLen + 33554432 < alloc)
+
+def replyStr : Reply → String
+  | .ok => "+OK" | .pong => "+PONG" | .nil => "nil"
+  | .bulk b => "bulk:" ++ b.toHex
+  | .int i => "int:" ++ toString i
+  | .arr l => "arr:[" ++ ",".intercalate (l.map fun x => match x with | none => "nil" | some b => b.toHex) ++ "]"
+  | .err k => "-" ++ k.str
+  | .quit => "+OK/closed"
+  | .closed => "closed"
+
+def step (st : DSt) (toks : List String) : DSt × String :=
+  match toks with
+  | "cfg" :: kvs =>
+    match kvs.foldlM setCfg st with
+    | some st' => (st', "ok")
+    | none => (st, "bad-cfg")
+  | ["parse", h] =>
+    match bytesOf? h with
+    | some b =>
+      let r := parseConn st.pc b
+      let good := parseConn PCfg.good b
+      let spec := if wellFormedAs b good.frames then connStr good b.length else "safe*"
+      (st, connStr r b.length ++ "\t" ++ spec)
+    | none => (st, "bad-op")
+  | ["conn", h] =>
+    match bytesOf? h with
+    | some b =>
+      let r := parseConn st.pc b
+      let out := match r.fin with
+        | .panic => "crash"
+        | .oom => "crash"
+        | .err _ => if bigConn r.alloc b.length then "alive mem=big" else "alive mem=ok"
+      (st, out ++ "\talive mem=ok")
+    | none => (st, "bad-op")
+  | "cmd" :: hs =>
+    match hs.mapM bytesOf? with
+    | some args =>
+      if args.isEmpty then (st, "bad-op") else
+      let g := gwStep st.gc modelNowMs st.gw args
+      let s := spStep modelNowMs st.sp args
+      ({ st with gw := g.1, sp := s.1 }, replyStr g.2 ++ "\t" ++ replyStr s.2)
+    | none => (st, "bad-op")
+  | _ => (st, "bad-op")
+
+def main : IO Unit := Driver.loop ({} : DSt) step
